@@ -1,0 +1,70 @@
+//go:build verif
+
+// Contracts for the contract-based verification in /verif (comment-only file).
+
+package cppki
+
+//@ # ---- TRC updates (C35; the vote/signature rules themselves belong to C32 and are abstracted here).
+//@ # trcKey(t): identity of a TRC payload value.
+//@ spec func trcKey(t TRC) uint64 uninterpreted
+//@ # call log (ghost): the payload identity of the signed TRC that most recently passed Verify, and of the
+//@ # predecessor it was verified against
+//@ ghost var okKey uint64
+//@ ghost var okPred uint64
+
+//@ # payload validation (C33) - assumed here: no effect, and an accepted payload has a quorum of at least one
+//@ func (*TRC).Validate
+//@   trusted
+//@   modifies nothing
+//@   ensures result == nil ==> trc.Quorum >= 1
+//@ func classifyCerts
+//@   trusted
+//@   modifies nothing
+//@ func detectNewVoters
+//@   trusted
+//@   modifies nothing
+//@ func (*TRC).validateSensitive
+//@   trusted
+//@   modifies nothing
+//@ func (*TRC).validateRegular
+//@   trusted
+//@   modifies nothing
+
+//@ # an update is accepted only as the direct successor of its predecessor: same ISD, same base, serial + 1
+//@ macro succOf(t, p) = ((p).ID.ISD == (t).ID.ISD && (p).ID.Base == (t).ID.Base && (p).ID.Serial + 1 == (t).ID.Serial && (p).NoTrustReset == (t).NoTrustReset && len((t).Votes) >= (p).Quorum)
+//@ func (*TRC).ValidateUpdate
+//@   props C35
+//@   requires trc != nil && (predecessor != nil ==> predecessor.Quorum >= 1)
+//@   modifies nothing
+//@   ensures result1 == nil ==> predecessor != nil && succOf(trc, predecessor) && trc.Quorum >= 1
+
+//@ func (*SignedTRC).verifyAll
+//@   trusted
+//@   modifies nothing
+//@ func (*SignedTRC).verifyBase
+//@   trusted
+//@   modifies nothing
+//@   ensures result == nil ==> s.TRC.Quorum >= 1
+
+//@ func (*SignedTRC).verifyUpdate
+//@   props C35
+//@   requires s != nil && (predecessor != nil ==> predecessor.Quorum >= 1)
+//@   modifies nothing
+//@   ensures result == nil ==> predecessor != nil && succOf(&s.TRC, predecessor) && s.TRC.Quorum >= 1
+
+//@ func (*SignedTRC).Verify
+//@   props C35
+//@   requires s != nil && (predecessor != nil ==> predecessor.Quorum >= 1)
+//@   modifies okKey, okPred
+//@   gset okKey := ite(result == nil, trcKey(s.TRC), old(okKey))
+//@   gset okPred := ite(result == nil && predecessor != nil, trcKey(*predecessor), old(okPred))
+//@   ensures result == nil ==> ((s.TRC.ID.Base == s.TRC.ID.Serial) == (predecessor == nil))
+//@   ensures result == nil && predecessor != nil ==> succOf(&s.TRC, predecessor)
+//@   ensures result == nil ==> s.TRC.Quorum >= 1
+
+//@ # "no TRC": zeroSigned names the value of IsZero (all fields empty); its body is a field-by-field comparison
+//@ spec func zeroSigned(t SignedTRC) bool uninterpreted
+//@ func (*SignedTRC).IsZero
+//@   trusted
+//@   modifies nothing
+//@   ensures result == zeroSigned(*s)
